@@ -27,6 +27,8 @@ func runC02(w *World, r *Report) {
 	r.Rule("R-C02-3", "fused handler coverage: the type switch of incrementByteCode has every numeric and string case addByteCode has", 10)
 	r.Rule("R-C02-4", "global cache: cacheGlobalTable only behind IsGlobalSingleton() == true and GlobalCacheEnabled; cachedGlobalTable only behind GlobalCacheEnabled", 8)
 
+	c02Declarations(w, r)
+
 	bp := w.pkg("internal/language/bytecode")
 	if bp == nil {
 		r.Anchor("R-C02-1", "package language/bytecode")
@@ -499,5 +501,240 @@ func runC02(w *World, r *Report) {
 
 			r.Discharge("R-C02-4", key, w.pos(in.Pos()), "")
 		})
+	}
+}
+
+// ---------------------------------------------------------------------------
+// R-C02-6 / R-C02-7 (added after two divergences a seeding sub-agent noticed on
+// the unmodified tree).
+
+func c02Declarations(w *World, r *Report) {
+	r.Rule("R-C02-6", "a := declaration never meets the value an earlier loop iteration left: the register store the compiler emits for a declaration (patchStore, declSlot >= 0) is an opcode whose handler does not type-check against the register's old value, and the create-if-absent opcode used in a loop body that keeps one scope resets a variable it finds", 2)
+	r.Rule("R-C02-7", "a name-based load resolves lexically whether registers are on or off: SymbolTable.Get, the lookup behind the Load opcode, does not answer from the register bank's slot-name table", 1)
+
+	bp := w.pkg("internal/language/bytecode")
+	cp := w.pkg("internal/language/compiler")
+	sp := w.pkg("internal/language/symbols")
+
+	if bp == nil || cp == nil || sp == nil {
+		r.Anchor("R-C02-6", "packages bytecode / compiler / symbols")
+
+		return
+	}
+
+	// opcode -> handler
+	handlers := map[int64]*ssa.Function{}
+
+	if init := w.ssaFunc(bp, "initializeDispatch"); init != nil {
+		allInstrs(init, func(in ssa.Instruction) {
+			st, ok := in.(*ssa.Store)
+			if !ok {
+				return
+			}
+
+			ia, ok := st.Addr.(*ssa.IndexAddr)
+			if !ok {
+				return
+			}
+
+			if k, isC := constInt(ia.Index); isC {
+				if f, isFn := stripValue(st.Val).(*ssa.Function); isFn {
+					handlers[k] = f
+				}
+			}
+		})
+	}
+
+	callsNamed := func(fn *ssa.Function, suffix string) bool {
+		found := false
+
+		allCalls(fn, func(ci ssa.CallInstruction) {
+			if strings.HasSuffix(callID(ci.Common()), suffix) {
+				found = true
+			}
+		})
+
+		return found
+	}
+
+	// (a) the register declaration store
+	{
+		key := "compiler.Compiler.patchStore|register declaration store"
+
+		ps := w.ssaFunc(cp, "Compiler.patchStore")
+		if ps == nil {
+			r.Anchor("R-C02-6", "compiler.Compiler.patchStore")
+		} else {
+			var declSlot ssa.Value
+
+			for _, p := range ps.Params {
+				if p.Name() == "declSlot" {
+					declSlot = p
+				}
+			}
+
+			cuts := cutEdges(ps, func(f Fact) bool {
+				// the edges on which declSlot >= 0 does not hold
+				return f.Kind == "cmp" && f.X == declSlot && f.Op == token.LSS
+			})
+
+			var ops []int64
+
+			allInstrs(ps, func(in ssa.Instruction) {
+				k := emitOf(in)
+				if k < 0 {
+					return
+				}
+
+				// emitted only when declSlot >= 0: unreachable once the true edge is cut
+				trueCuts := cutEdges(ps, func(f Fact) bool { return f.Kind == "cmp" && f.X == declSlot && f.Op == token.GEQ })
+				if len(trueCuts) > 0 && !instrReachableAfterCut(ps, in, trueCuts) {
+					ops = append(ops, k)
+				}
+			})
+
+			_ = cuts
+
+			switch {
+			case declSlot == nil || len(ops) == 0:
+				r.Violate("R-C02-6", key, w.pos(ps.Pos()), "the store emitted for a register declaration (declSlot >= 0) was not found in patchStore")
+			default:
+				bad := ""
+
+				for _, k := range ops {
+					h := handlers[k]
+					if h == nil {
+						bad = "opcode " + sprintInt(int(k)) + " has no handler"
+
+						continue
+					}
+
+					if callsNamed(h, "bytecode.Context.checkTypeRegister") {
+						bad = "the handler " + fnKey(h) + " checks the new value against what the register already holds"
+					}
+				}
+
+				if bad != "" {
+					r.Violate("R-C02-6", key, w.pos(ps.Pos()), bad+": in a loop, `v := a[i]` over values of different types stops with a type error when registers are on and runs when they are off")
+				} else {
+					r.Discharge("R-C02-6", key, w.pos(ps.Pos()), "emits an opcode whose handler stores without consulting the old value")
+				}
+			}
+		}
+	}
+
+	// (b) the create-if-absent opcode resets what it finds, when told it is a declaration
+	{
+		key := "bytecode.symbolCreateIfByteCode|redeclaration resets"
+
+		h := w.ssaFunc(bp, "symbolCreateIfByteCode")
+		if h == nil {
+			r.Anchor("R-C02-6", "bytecode.symbolCreateIfByteCode")
+		} else {
+			resets := false
+
+			allInstrs(h, func(in ssa.Instruction) {
+				c := callTo(in, "internal/language/symbols.SymbolTable.SetAlways")
+				if c == nil || len(c.Args) < 3 {
+					return
+				}
+
+				if mi, ok := c.Args[2].(*ssa.MakeInterface); ok {
+					if n := namedOf(mi.X.Type()); n != nil && n.Obj().Name() == "UndefinedValue" {
+						resets = true
+					}
+				}
+			})
+
+			// and the compiler passes the flag where a loop body keeps one scope
+			flagged := false
+
+			for _, fn := range w.srcFuncs(cp) {
+				var idem []*ssa.Call
+
+				allInstrs(fn, func(in ssa.Instruction) {
+					if c, ok := in.(*ssa.Call); ok && strings.HasSuffix(callID(c.Common()), "compiler.Compiler.inIdempotentDeclScope") {
+						idem = append(idem, c)
+					}
+				})
+
+				if len(idem) == 0 {
+					continue
+				}
+
+				cuts := cutEdges(fn, func(f Fact) bool {
+					if f.Kind != "true" {
+						return false
+					}
+
+					for _, c := range idem {
+						if f.V == ssa.Value(c) {
+							return true
+						}
+					}
+
+					return false
+				})
+
+				allInstrs(fn, func(in ssa.Instruction) {
+					if emitOf(in) < 0 || instrReachableAfterCut(fn, in, cuts) {
+						return
+					}
+
+					// an operand that is a list ([]any{name, true}) rather than the bare name
+					c := in.(*ssa.Call)
+					if len(c.Call.Args) < 3 {
+						return
+					}
+
+					// the variadic operand array: stores through &varargs[i]
+					sl, ok := c.Call.Args[2].(*ssa.Slice)
+					if !ok {
+						return
+					}
+
+					allInstrs(fn, func(i2 ssa.Instruction) {
+						st, ok := i2.(*ssa.Store)
+						if !ok {
+							return
+						}
+
+						ia, ok := st.Addr.(*ssa.IndexAddr)
+						if !ok || ia.X != sl.X {
+							return
+						}
+
+						if mi, ok := st.Val.(*ssa.MakeInterface); ok {
+							if _, isSlice := mi.X.Type().Underlying().(*types.Slice); isSlice {
+								flagged = true
+							}
+						}
+					})
+				})
+			}
+
+			switch {
+			case !resets:
+				r.Violate("R-C02-6", key, w.pos(h.Pos()), "SymbolOptCreate leaves a variable it finds as it is: with optimization on, a loop body keeps one scope and `v := a[i]` is checked against the type the previous iteration stored, while -o 0 runs it in a fresh scope")
+			case !flagged:
+				r.Violate("R-C02-6", key, w.pos(h.Pos()), "the compiler does not tell SymbolOptCreate that the := in a shared loop scope is a declaration (no list operand on the inIdempotentDeclScope edge)")
+			default:
+				r.Discharge("R-C02-6", key, w.pos(h.Pos()), "resets the variable to undefined when the compiler marks the instruction as a declaration running again")
+			}
+		}
+	}
+
+	// R-C02-7
+	{
+		key := "symbols.SymbolTable.Get|slot-name fallback"
+
+		get := w.ssaFunc(sp, "SymbolTable.Get")
+		if get == nil {
+			r.Anchor("R-C02-7", "symbols.SymbolTable.Get")
+		} else if callsNamed(get, "symbols.SymbolTable.slotValueByName") || callsNamed(get, "symbols.SymbolTable.slotIndexByName") {
+			r.Violate("R-C02-7", key, w.pos(get.Pos()), "Get answers a name from the register bank's slot-name table before walking to the parent scope: with ego.compiler.registers on, a local declared in an inner block (`if … { x := 5 }`) still answers a later name-based load of a global x in the same function (f() returns 5), with registers off the global is read (100)")
+		} else {
+			r.Discharge("R-C02-7", key, w.pos(get.Pos()), "no by-name access to the register bank")
+		}
 	}
 }
